@@ -21,8 +21,9 @@
 //     loan and leaves no loan behind.
 //   - struct field names are upper case (lower-case fields are private outside methods).
 //   - bounds: quick = length <= 4, thorough = length <= 5 (length 6 would be 4 M verdicts);
-//     the quick tier executes all accepted sequences up to length 3 and those of length 4 for
-//     the pairs same-var and parent-child only (verdicts: every pair at every length).
+//     the quick tier judges every pair up to length 3 and four pairs (same-var, disjoint-fields,
+//     parent-child, elem-field) at length 4; it executes the accepted sequences up to length 3
+//     and those of length 4 for same-var and parent-child; the thorough tier does everything.
 //   - sequences that print nothing are not executed (nothing to compare); direct stores to an
 //     element of a fixed [N]i32 array are miscompiled today (another property's defect): one
 //     sentinel case reports it and, while it fails, sequences with such a store are judged
@@ -416,6 +417,9 @@ func (k *checker) sentinel() {
 
 // ---------------------------------------------------------------------------------
 
+// the place pairs whose length-4 sequences the quick tier judges (all pairs up to length 3)
+var quick4 = map[string]bool{"same-var": true, "disjoint-fields": true, "parent-child": true, "elem-field": true}
+
 func Run(c *vl.Ctx) {
 	quick := c.Quick()
 	// thorough: length <= 5 (62 665 sequences x 8 pairs = 501 320 verdicts); length 6 has
@@ -499,7 +503,10 @@ func Run(c *vl.Ctx) {
 		// verdicts of this level
 		type item struct{ pi, lo, hi int }
 		var items []item
-		for pi := range k.pairs {
+		for pi, p := range k.pairs {
+			if quick && n == 4 && !quick4[p.name] {
+				continue
+			}
 			for a := lo; a < hi; a += packV {
 				z := a + packV
 				if z > hi {
@@ -608,11 +615,11 @@ func Run(c *vl.Ctx) {
 	}
 	c.Count("control_twins_checked", twins)
 	c.Count("must_reject_without_twin", noTwin)
-	c.Count("control_twins_not_reached", twinUnknown)
+	c.Count("control_twins_outside_the_explored_part", twinUnknown)
 	c.Count("executed_sequences", executed)
 	c.Count("not_executed_prints_nothing", skippedSilent)
 	c.Count("not_executed_array_store_defect", skippedStore)
-	c.Count("not_executed_in_quick_tier(length 4, six of eight pairs)", skippedQuick)
+	c.Count("not_executed_in_quick_tier(length 4, other than same-var and parent-child)", skippedQuick)
 	c.Count("front_end_programs", atomic.LoadInt64(&k.progs))
 
 	for _, i := range []int{len(k.seqs) / 5, len(k.seqs) / 2, len(k.seqs) - 3} {
@@ -632,5 +639,5 @@ func Run(c *vl.Ctx) {
 		"a by-value parameter is a local of the function (its storage dies with the call)")
 	c.Finish(vl.Coverage{Evaluations: atomic.LoadInt64(&k.evals) + catalogueEvals, Exhaustive: doneLevel == len(levelEnd)-1,
 		Rule:  fmt.Sprintf("all well-formed event sequences (15 event kinds: bind r1/r2 shared/mutable, read/write through, read/write the place, temporary &' to a callee, open/close block) of length <= %d x %d place pairs; oracle = loan model (live from bind to last use; &' loan vs any access, & loan vs write/&' borrow; overlap = path prefix); each must-reject sequence has its control twin in the same space; accepted sequences that print are run natively and compared with write-through semantics; plus the return/callee catalogue; distinct_nontrivial = sequences with at least one conflicting (event, loan) pair", maxLen, len(k.pairs)),
-		Bound: fmt.Sprintf("length<=%d%s (completed through level %d) pairs=%s", maxLen, map[bool]string{true: " plus 5 nested-block sequences of length 5", false: ""}[len(levelEnd) > maxLen+1], doneLevel, strings.Join(names, ","))})
+		Bound: fmt.Sprintf("length<=%d%s (completed through level %d) pairs=%s", maxLen, map[bool]string{true: " plus 5 nested-block sequences of length 5", false: ""}[len(levelEnd) > maxLen+1], doneLevel, strings.Join(names, ",")+map[bool]string{true: " (at length 4: same-var,disjoint-fields,parent-child,elem-field)", false: ""}[quick && maxLen >= 4])})
 }
